@@ -257,13 +257,6 @@ func TestVerifC10(t *testing.T) {
 		list = append(list, nil) // the uncorrupted message (completeness)
 		r.Sample(map[string]any{"base": fmt.Sprintf("events %d..%d, accumulator %d", bs.a, bs.b, bs.b), "single_corruptions": len(cors), "cases": len(list)})
 		for _, combo := range list {
-			_, mine := r.Next()
-			if !mine {
-				continue
-			}
-			if r.Expired() {
-				return
-			}
 			class, desc := "none", "uncorrupted"
 			for i, c := range combo {
 				if i == 0 {
@@ -271,6 +264,14 @@ func TestVerifC10(t *testing.T) {
 				} else {
 					class, desc = class+"+"+c.class, desc+" & "+c.desc
 				}
+			}
+			// the number of corruptions depends on the length of this process's (randomised) ECDSA
+			// signatures, so cases are dealt to shards by description, not by running number
+			if !r.MineKey(fmt.Sprintf("%d|%s", bi, desc)) {
+				continue
+			}
+			if r.Expired() {
+				return
 			}
 			for _, form := range forms {
 				var recv *Update
